@@ -29,18 +29,23 @@ func registerRead(ctx *Context, forward Forward, reg RegisterType, sequenceID in
 	}
 
 	if ctx.rat {
-		if sequenceID == 0 {
-			if v, exists := ctx.transactionRAT.Read(reg); exists {
-				return v.value
+		// The uncommitted writes may have arrived out of program order: the value
+		// to read is the one of the youngest writer. If a sequence ID is provided,
+		// we make sure not to read a register value written by an instruction
+		// following the current instruction
+		found := false
+		var youngest transactionUnit
+		overflowed := ctx.transactionRAT.Overflowed(reg)
+		for _, v := range ctx.transactionRAT.Entries(reg) {
+			if sequenceID != 0 && v.sequenceID > sequenceID {
+				continue
 			}
-		} else {
-			// If a sequence ID is provided, we make sure not to read a register
-			// value written by an instruction following the current instruction
-			if v, exists := ctx.transactionRAT.Find(reg, func(v transactionUnit) bool {
-				return v.sequenceID <= sequenceID
-			}); exists {
-				return v.value
+			if !found || (!overflowed && v.sequenceID > youngest.sequenceID) {
+				youngest, found = v, true
 			}
+		}
+		if found {
+			return youngest.value
 		}
 		v, _ := ctx.committedRAT.Read(reg)
 		return v
